@@ -383,7 +383,7 @@ class Machine:
         segs = [x for x in split_path(path) if not x.startswith('<')]
         if len(segs) == 1:
             owners = self.variant_owner.get(strip_generics(segs[0]).strip(), [])
-            if len(owners) == 1 and owners[0] in ('Ordering', 'Option', 'Result', 'ControlFlow'):
+            if len(owners) == 1:
                 segs = [owners[0], segs[0]]
         if len(segs) >= 2:
             vname = strip_generics(segs[-1]).strip()
@@ -450,6 +450,12 @@ class Machine:
             if ev is not None: return ev
             return Agg(type_head(rv[1]), vals)
         if k == 'unit':
+            if '::' not in rv[1] and dst_local is not None:
+                # bare variant name: the enum is the declared type of the destination local
+                ety = type_head(fn.locals.get(dst_local, ''))
+                if ety in self.enums:
+                    for n, d in self.enums[ety]:
+                        if n == rv[1].strip(): return En(ety, d, {d: []})
             ev = self.try_variant(rv[1], [])
             if ev is not None: return ev
             return Agg(type_head(rv[1]), [])
@@ -789,6 +795,12 @@ class Machine:
             raise Unsupported(f'no model or MIR body for `{callee}` (rt={self.rt_type(args[0]) if args else None})')
         return self.call_fn(f, args)
 
+    @staticmethod
+    def _norm_ty(t):
+        t = re.sub(r"&('\w+ )?(mut )?", '', t or '')
+        t = re.sub(r'\b(?:\w+::)+', '', t)
+        return t.replace(' ', '')
+
     def resolve_mir(self, q, tr, method, args, callee):
         if '::' in method:
             # nested item of a method, e.g. <EASE_WEB as Deref>::deref::__stability
@@ -803,6 +815,9 @@ class Machine:
         if key in self.resolve_cache:
             return self.resolve_cache[key]
         best = []; bests = -1
+        rawq = None
+        if callee.startswith('<') and ' as ' in callee:
+            rawq = self._norm_ty(self.parse_callee(callee)[3])
         for f in cands:
             if len(f.args) != len(args): continue
             s = 0
@@ -814,7 +829,9 @@ class Machine:
             else:
                 if f.impl_span is None and q is None: s += 2       # free function
                 if f.impl_trait is None: s += 1                    # inherent method preferred for a path call
+            if rawq and f.args and '<' in rawq and self._norm_ty(f.args[0][1]) == rawq: s += 4     # same generic instantiation
             if q is not None:
+                if f.owner == q and f.impl_trait and f.impl_trait.startswith('derive:'): s += 5     # derive expansion of that very type
                 if f.impl_self == q: s += 3
                 if a0 == q: s += 2
                 if f.impl_span is None and strip_generics(f.name).split('::')[-2:-1] == [q]: s += 2
